@@ -1,7 +1,7 @@
 (* Consumer — the hand model tied to the definitions go/decgen regenerates from consumer.go on every check
    (golden: Gen/DecC03.v): chooseStartingOffset's switch and the fetch-size escalation block of parseResponse. *)
-From Coq Require Import List ZArith Bool Lia String.
-From SV Require Import Gen.GoInt Gen.DecTypes Gen.DecC03 Consumer.Parse.
+From Coq Require Import String List ZArith Bool Lia.
+From SV Require Import Gen.GoInt Gen.DecTypes Gen.DecTypes2 Gen.DecC03 Gen.DecC11 Consumer.Parse Consumer.Log.
 Import ListNotations.
 Open Scope Z_scope.
 
@@ -37,4 +37,209 @@ Proof.
   destruct ((0 <? fetch_max c) && (fs =? fetch_max c)); [now rewrite wrap64_small|].
   change (GoInt.wrap32 (fs * 2)) with (Parse.wrap32 (fs * 2)).
   destruct (Parse.wrap32 (fs * 2) <? 0); reflexivity.
+Qed.
+
+Open Scope list_scope.
+
+(* ------------------------------------------------------------------ parseRecords / parseMessages loops *)
+Definition in64 (z : Z) : Prop := -9223372036854775808 <= z < 9223372036854775807.   (* z and z + 1 fit int64 *)
+
+Lemma w64 : forall z, in64 z -> wrap64 z = z /\ wrap64 (z + 1) = z + 1.
+Proof. intros z H. unfold in64 in H. split; apply wrap64_small; lia. Qed.
+
+Lemma zlen_app_nil : forall (a b : list Z), (zlen (a ++ b) =? 0) = (zlen a =? 0) && (zlen b =? 0).
+Proof.
+  intros [|x a] b; cbn [app]; [reflexivity|]. unfold zlen. cbn [List.length].
+  assert (forall n, Z.of_nat (S n) =? 0 = false) as H by (intros; apply Z.eqb_neq; lia). now rewrite !H.
+Qed.
+
+(* the generated loop of parseRecords = accept over the batch's candidates, on an accumulator *)
+Lemma tie_parse_records_loop : forall (b : rbatch) recs o acc (all : list Z) lat,
+  Forall (fun r => in64 (rb_first b + rc_delta r)) recs ->
+  parse_records_loop1 (map rc_delta recs) o (rb_first b) all lat acc =
+  let '(m, o') := accept o (map (batch_cand b) recs) in
+  (if zlen (acc ++ offs m) =? 0 then wrap64 (o' + 1) else o', acc ++ offs m, ENil).
+Proof.
+  intros b recs. induction recs as [|r t IH]; intros o acc all lat Hf; cbn [map parse_records_loop1 accept].
+  - cbn [offs map]. now rewrite app_nil_r.
+  - inversion Hf as [|? ? Hr Ht]; subst. destruct (w64 _ Hr) as [W1 W2]. rewrite W1. cbn [batch_cand cm_offset].
+    destruct (rb_first b + rc_delta r <? o) eqn:E.
+    + apply IH; auto.
+    + rewrite W2, IH by auto. destruct (accept (rb_first b + rc_delta r + 1) (map (batch_cand b) t)) as [m o'].
+      cbn [offs map cm_offset batch_cand]. now rewrite <- app_assoc.
+Qed.
+
+Lemma tie_parse_records : forall (b : rbatch) o,
+  Forall (fun r => in64 (rb_first b + rc_delta r)) (rb_recs b) -> in64 o ->
+  DecC03.parse_records o (rb_first b) (map rc_delta (rb_recs b)) (rb_logappend b) =
+  (snd (Parse.parse_records o b), offs (fst (Parse.parse_records o b)), ENil).
+Proof.
+  intros b o Hf Ho. unfold DecC03.parse_records, Parse.parse_records, batch_cands, bump.
+  rewrite tie_parse_records_loop by auto. destruct (accept o (map (batch_cand b) (rb_recs b))) as [m o'] eqn:Ea.
+  cbn [app fst snd]. destruct m as [|x m'].
+  - cbn. f_equal. f_equal. (* nothing accepted: accept leaves the offset alone *)
+    assert (o' = o).
+    { clear -Ea. revert o o' Ea. induction (map (batch_cand b) (rb_recs b)) as [|c r IH]; cbn; intros o o' E; [congruence|].
+      destruct (cm_offset c <? o); [eauto|]. destruct (accept (cm_offset c + 1) r); discriminate. }
+    subst. apply (w64 _ Ho).
+  - cbn [offs map]. assert (zlen (cm_offset x :: map cm_offset m') =? 0 = false) as -> by (unfold zlen; cbn [length]; apply Z.eqb_neq; lia).
+    reflexivity.
+Qed.
+
+Definition lmsg_triple (m : lmsg) : Z * Z * bool := (lm_offset m, lm_version m, lm_logappend m).
+
+(* the generated loop over msgBlock.Messages() = accept over the block's candidates (the `len(messages)==0` rule
+   is outside the loop, over the whole set) *)
+Lemma tie_parse_messages_inner_loop : forall (b : lblock) ms o acc (all : list (Z * Z * bool)),
+  Forall (fun m => in64 (lm_offset (lb_own b) - last_offset (block_msgs b)) /\ in64 (cm_offset (legacy_cand b m))) ms ->
+  parse_messages_inner_loop1 (map lmsg_triple ms) o acc all (lm_offset (lb_own b)) (last_offset (block_msgs b)) =
+  let '(m, o') := accept o (map (legacy_cand b) ms) in (o', acc ++ offs m, @ExFall unit).
+Proof.
+  intros b ms. induction ms as [|x t IH]; intros o acc all Hf; cbn [map parse_messages_inner_loop1 accept].
+  - cbn. now rewrite app_nil_r.
+  - inversion Hf as [|? ? [Hb Hc] Ht]; subst. cbn [lmsg_triple fst snd]. rewrite Z.geb_leb.
+    assert (Eoff : (if 1 <=? lm_version x
+                    then (wrap64 (lm_offset x + wrap64 (lm_offset (lb_own b) - last_offset (block_msgs b))), tt)
+                    else (lm_offset x, tt)) = (cm_offset (legacy_cand b x), tt)).
+    { unfold legacy_cand. cbn [cm_offset]. destruct (1 <=? lm_version x) eqn:Ev; [|reflexivity].
+      destruct (w64 _ Hb) as [W1 _]. rewrite W1. unfold legacy_cand in Hc. cbn [cm_offset] in Hc. rewrite Ev in Hc.
+      destruct (w64 _ Hc) as [W2 _]. now rewrite W2. }
+    destruct (lm_logappend x); rewrite Eoff; destruct (w64 _ Hc) as [_ W3];
+      (destruct (cm_offset (legacy_cand b x) <? o) eqn:E;
+       [apply IH; auto
+       |rewrite W3, IH by auto; destruct (accept (cm_offset (legacy_cand b x) + 1) (map (legacy_cand b) t)) as [m o'];
+        cbn [offs map]; now rewrite <- app_assoc]).
+Qed.
+
+Lemma tie_parse_messages_inner : forall (b : lblock) o acc,
+  Forall (fun m => in64 (lm_offset (lb_own b) - last_offset (block_msgs b)) /\ in64 (cm_offset (legacy_cand b m))) (block_msgs b) ->
+  parse_messages_inner o acc (map lmsg_triple (block_msgs b)) (lm_offset (lb_own b)) (last_offset (block_msgs b)) =
+  (snd (accept o (block_cands b)), acc ++ offs (fst (accept o (block_cands b))), @ExFall unit).
+Proof.
+  intros b o acc Hf. unfold parse_messages_inner, block_cands. rewrite tie_parse_messages_inner_loop by auto.
+  now destruct (accept o (map (legacy_cand b) (block_msgs b))).
+Qed.
+
+(* ------------------------------------------------------------------ C11: aborted walk, batch verdict, kept Records, sort order *)
+Definition swap (e : Z * Z) : Z * Z := (snd e, fst e).     (* model entries are (pid, first); the generated ones (first, pid) *)
+
+(* the generated consumption loop = pop_aborted: the same entries leave, their pids are marked in that order *)
+Fixpoint popped (last : Z) (idx : list (Z * Z)) : list Z :=
+  match idx with [] => [] | (p, f) :: r => if last <? f then [] else p :: popped last r end.
+
+Lemma pop_aborted_popped : forall idx last A, snd (pop_aborted last idx A) = rev (popped last idx) ++ A.
+Proof.
+  induction idx as [|[p f] r IH]; intros last A; cbn [pop_aborted popped]; auto.
+  destruct (last <? f); cbn; auto. rewrite IH. cbn. now rewrite <- app_assoc.
+Qed.
+
+Lemma tie_consume_aborted_loop : forall idx last acts,
+  consume_aborted_loop1 (map swap idx) (map swap idx) last acts =
+  (map swap (fst (pop_aborted last idx [])), acts ++ map CT_begin_aborted (popped last idx), @ExFall unit).
+Proof.
+  induction idx as [|[p f] r IH]; intros last acts; cbn [map consume_aborted_loop1 pop_aborted popped swap fst snd].
+  - now rewrite app_nil_r.
+  - rewrite Z.gtb_ltb. destruct (last <? f) eqn:E.
+    + cbn [fst map swap snd]. now rewrite app_nil_r.
+    + cbn [skipn Z.to_nat Pos.to_nat Pos.iter_op Nat.add]. rewrite IH. cbn [map]. rewrite <- app_assoc. cbn [app].
+      f_equal. f_equal. f_equal.
+      (* the remaining index does not depend on the accumulated pid set *)
+      clear. generalize (@nil Z) at 1. generalize [p]. induction r as [|[q g] t IHt]; intros a b; cbn [pop_aborted]; auto.
+      destruct (last <? g); auto.
+Qed.
+
+Lemma tie_consume_aborted : forall idx last A,
+  consume_aborted (map swap idx) last =
+  (map swap (fst (pop_aborted last idx A)), map CT_begin_aborted (popped last idx), @ExFall unit) /\
+  snd (pop_aborted last idx A) = rev (popped last idx) ++ A.
+Proof.
+  intros idx last A. split; [|apply pop_aborted_popped]. unfold consume_aborted. rewrite tie_consume_aborted_loop. cbn [app].
+  f_equal. f_equal. f_equal. clear. generalize (@nil Z). revert A. induction idx as [|[q g] t IH]; intros a b; cbn [pop_aborted]; auto.
+  destruct (last <? g); auto.
+Qed.
+
+(* the generated per-batch verdict is the model's loop body: control batches are never exposed and an abort marker
+   ends the producer's aborted range; under ReadCommitted a transactional batch of a marked producer is dropped *)
+Definition iso_of (c : cfg) : Z := if read_committed c then 1 else 0.
+
+Lemma tie_batch_verdict_data : forall c is_aborted is_txn t,
+  batch_verdict ENil false ENil (iso_of c) ENil t is_aborted is_txn =
+  (ENil, [], if read_committed c && is_txn && is_aborted then @ExContinue (list Z * gerr) else @ExFall (list Z * gerr)).
+Proof.
+  intros c ab tx t. unfold batch_verdict, iso_of. cbn [gerr_eqb negb]. destruct (read_committed c); cbn [Z.eqb andb]; auto.
+  destruct (tx && ab); reflexivity.
+Qed.
+
+Lemma tie_batch_verdict_control : forall c is_aborted is_txn t,
+  batch_verdict ENil true ENil (iso_of c) ENil t is_aborted is_txn =
+  (ENil, (if t =? 0 then [CT_end_aborted] else []), @ExContinue (list Z * gerr)).
+Proof. intros. unfold batch_verdict. cbn [gerr_eqb negb]. destruct (t =? 0); reflexivity. Qed.
+
+Lemma tie_batch_verdict_control_error : forall c e is_aborted is_txn t, e <> ENil ->
+  batch_verdict ENil true ENil (iso_of c) e t is_aborted is_txn = (e, [], @ExReturn (list Z * gerr) ([], e)).
+Proof.
+  intros c e ab tx t He. unfold batch_verdict. cbn [gerr_eqb negb]. destruct (gerr_eqb e ENil) eqn:E; [|reflexivity].
+  apply gerr_eqb_eq in E. contradiction.
+Qed.
+
+(* parse_set's step for a record batch, phrased with the generated verdict *)
+Lemma tie_parse_set_batch : forall c o idx A b r,
+  parse_set c o idx A (RBatch b :: r) =
+  let '(idx1, A1) := pop_aborted (rb_first b + rb_lastdelta b) idx A in
+  let '(m, o1) := Parse.parse_records o b in
+  if rb_control b then
+    match control_type b with
+    | None => ([], o1, VCtrlErr)
+    | Some t => match snd (fst (batch_verdict ENil true ENil (iso_of c) ENil t (memZ (rb_pid b) A1) (rb_txn b))) with
+                | [CT_end_aborted] => parse_set c o1 idx1 (removeZ (rb_pid b) A1) r
+                | _ => parse_set c o1 idx1 A1 r
+                end
+    end
+  else
+    match snd (batch_verdict ENil false ENil (iso_of c) ENil 0 (memZ (rb_pid b) A1) (rb_txn b)) with
+    | ExContinue => parse_set c o1 idx1 A1 r
+    | _ => let '(ms, o2, v) := parse_set c o1 idx1 A1 r in
+           match v with VOk => (m ++ ms, o2, VOk) | _ => ([], o2, v) end
+    end.
+Proof.
+  intros. cbn [parse_set]. destruct (pop_aborted (rb_first b + rb_lastdelta b) idx A) as [idx1 A1].
+  destruct (Parse.parse_records o b) as [m o1]. destruct (rb_control b).
+  - destruct (control_type b) as [t|]; auto. rewrite tie_batch_verdict_control. cbn [fst snd]. destruct (t =? 0); reflexivity.
+  - rewrite tie_batch_verdict_data. cbn [snd]. destruct (read_committed c && rb_txn b && memZ (rb_pid b) A1); reflexivity.
+Qed.
+
+(* FetchResponseBlock.decode keeps a Records element iff it has records, or it is a partial first one: every kept
+   element after the first has records (the shape the faithful-fetch hypothesis relies on) *)
+Lemma tie_keep_records : forall rs n partial id first_unset,
+  keep_records rs n partial id first_unset =
+  (if (0 <? n) || (partial && (zlen rs =? 0)) then rs ++ [id] else rs,
+   if (0 <? n) || (partial && (zlen rs =? 0)) then (if first_unset then [FB_set_first] else []) else [],
+   @ExFall gerr).
+Proof.
+  intros. unfold keep_records. rewrite Z.gtb_ltb. destruct ((0 <? n) || (partial && (zlen rs =? 0))); [|reflexivity].
+  destruct first_unset; reflexivity.
+Qed.
+
+Lemma tie_keep_records_later : forall rs n partial id fu, rs <> [] ->
+  fst (fst (keep_records rs n partial id fu)) = rs ++ [id] -> 0 < n.
+Proof.
+  intros rs n partial id fu Hne. rewrite tie_keep_records. cbn [fst].
+  assert (zlen rs =? 0 = false) as -> by (destruct rs; [congruence|unfold zlen; cbn [List.length]; apply Z.eqb_neq; lia]).
+  rewrite andb_false_r, orb_false_r. destruct (0 <? n) eqn:E; [intros _; now apply Z.ltb_lt|].
+  intros H. exfalso. assert (List.length rs = List.length (rs ++ [id])) by (now rewrite <- H). rewrite List.app_length in H0. cbn in H0. lia.
+Qed.
+
+(* the comparator of getAbortedTransactions orders by first offset; the model's sort_idx output is sorted for it *)
+Lemma tie_aborted_less : forall i j fi fj, aborted_less i j fi fj = (fi <? fj).
+Proof. reflexivity. Qed.
+
+From Coq Require Import Sorting.Sorted.
+From SV Require Import Consumer.ParseProofs Consumer.TxnProofs.
+
+Lemma tie_sort_idx : forall l i j,
+  StronglySorted (fun a b => aborted_less i j (snd b) (snd a) = false) (sort_idx l) /\ (forall x, In x (sort_idx l) <-> In x l).
+Proof.
+  intros l i j. split; [|intros x; apply sort_idx_In].
+  pose proof (sort_idx_sorted l) as H. induction H as [|a r Hs IH Hall]; constructor; auto.
+  eapply Forall_impl; [|exact Hall]. intros b Hb. unfold le_snd in Hb. rewrite tie_aborted_less. apply Z.ltb_ge. lia.
 Qed.
